@@ -943,8 +943,10 @@ def run(ctx):
     ctx.assumptions.append("modules are the stub harness/stubmod.c, built in eight variants (every combination of "
                            "module_constructor / module_post_init / module_destructor present or absent) and copied "
                            "per module name m1..m6; only a module that declares nothing may lack module_constructor "
-                           "(a constructor is the only place to call module_depends() from); only module_depends() "
-                           "declarations (module_antidepends / module_is_backend are outside the contract)")
+                           "(a constructor is the only place to call module_depends() from); edges are declared "
+                           "with module_depends() or, from the other end, module_antidepends() (consistent declarations "
+                           "only: a consumer pulled in by its back-end does not name that back-end with module_depends() "
+                           "as well); module_is_backend is outside the contract")
     ctx.assumptions.append("'running' = a zero-delay libevent timer, armed by the first stub that gets control (a "
                            "module_constructor, or the ELF constructor of a stub without one), fired inside "
                            "main()'s event loop (or the process was still alive %ss after start); the daemon is "
